@@ -5,14 +5,14 @@
 set -u
 what="$1"; shift; shift
 cd /repo || exit 2
-if ! git diff --quiet; then echo "/repo working tree is dirty" >&2; exit 2; fi
+if ! git diff --quiet HEAD; then echo "/repo working tree is dirty" >&2; exit 2; fi
 if [ -f "$what" ]; then
   git apply "$what" || { echo "patch does not apply" >&2; exit 2; }
 else
-  git show "$what" | git apply -R || { echo "cannot revert $what" >&2; exit 2; }
+  git show "$what" | git apply -R -3 2>/dev/null || git show "$what" | git apply -R -C1 || { echo "cannot revert $what" >&2; exit 2; }
 fi
 cd /verif
 "$@"
 rc=$?
-git -C /repo checkout -- . && git -C /repo clean -fdq
+git -C /repo reset -q --hard HEAD && git -C /repo clean -fdq
 exit $rc
